@@ -120,19 +120,34 @@ def unitary_test(run, rng, count):
         if kind == "named":
             g = rng.choice([gates.CNOT(0, 1), gates.SWAP(0, 1), gates.iSWAP(0, 1), gates.CZ(0, 1), gates.fSim(0, 1, 0.3, 0.7)])
             return np.asarray(g.matrix())
+        if kind == "real_named":      # real / integer dtype, determinant -1 or +1
+            M = rng.choice([gates.CNOT(0, 1), gates.SWAP(0, 1), gates.CZ(0, 1), gates.FSWAP(0, 1)]).matrix()
+            return np.real(np.asarray(M)).astype(rng.choice([float, int]))
+        if kind == "real_orthogonal":
+            from scipy.stats import ortho_group
+            Q = ortho_group.rvs(d, random_state=rng.randrange(2 ** 31))
+            if rng.random() < 0.5:
+                Q[:, 0] = -Q[:, 0]
+            return Q
         return np.eye(d, dtype=complex)
     sets = native_sets()
     n_done = 0
     for i in range(count):
         d = rng.choice([2, 4])
-        kind = rng.choice(["haar", "diag", "degenerate", "identity"] + (["kron", "named"] if d == 4 else []))
+        kind = rng.choice(["haar", "diag", "degenerate", "identity", "real_orthogonal"] + (["kron", "named", "real_named"] if d == 4 else []))
         U = rand_u(d, kind)
+        updated = (i % 3 == 0)        # matrix replaced after construction (parameters setter), then unrolled
         sname, natives = sets[i % len(sets)]
         if d == 4 and sname.endswith("CNOT"):
             continue
         qs = [1, 0] if d == 4 else [1]
         try:
-            out = translate_gate(gates.Unitary(U, *qs), natives)
+            if updated:
+                g = gates.Unitary(rand_u(d, "haar"), *qs)
+                g.parameters = U
+            else:
+                g = gates.Unitary(U, *qs)
+            out = translate_gate(g, natives)
             A = qtrace.full_unitary(out, 2)
             B = qtrace.full_unitary([gates.Unitary(U, *qs)], 2)
             dist = qtrace.phase_distance(A, B)
@@ -140,6 +155,7 @@ def unitary_test(run, rng, count):
         except Exception as e:
             dist, nb = float("inf"), [f"{type(e).__name__}: {e}"]
         n_done += 1
+        kind = kind + (":updated" if updated else "")
         run.case(["unitary", sname, d, kind, i])
         if dist > 1e-6 or nb:
             bad.append({"native_set": sname, "dim": d, "kind": kind, "distance": dist, "non_native": nb,
